@@ -5,6 +5,8 @@ mod ast_differ;
 mod dep_graph;
 /// A service to perform garbage collection on heaps
 mod gc;
+#[cfg(samlang_verif)]
+pub use gc::VERIF_MODULES_PER_SLICE;
 /// A service to perform global search for find references
 mod global_searcher;
 /// A service to find the smallest cover of a meaningful AST node
